@@ -282,8 +282,22 @@ def r5(ctx):
     g = ctx.fn(COUNTTABLE, AR)
     # segment from `countToAdd = 1` to the construction of count_increment
     # (the first top-level statement that stores the weight, whether a plain assignment or an if/else that assigns it in its arms)
-    idx0 = [i for i, s in enumerate(g.body) if any(isinstance(x, ast.Assign) and src(x.targets[0]) == 'countToAdd' for x in ([s] + list(walk_no_nested(s))))]
     idx1 = [i for i, s in enumerate(g.body) if isinstance(s, ast.Assign) and src(s.targets[0]) == 'count_increment']
+    # the weight may be staged through other locals (`w = ...; countToAdd = w / n`): the segment starts where the first of them is assigned
+    deps = {'countToAdd'}
+    head = g.body[:idx1[0]] if idx1 else g.body
+    grew = True
+    while grew:
+        grew = False
+        for s in head:
+            for x in [s] + list(walk_no_nested(s)):
+                if isinstance(x, ast.Assign) and len(x.targets) == 1 and isinstance(x.targets[0], ast.Name) and x.targets[0].id in deps:
+                    new = {n.id for n in ast.walk(x.value) if isinstance(n, ast.Name) and isinstance(n.ctx, ast.Load)} - deps
+                    new = {n for n in new if any(isinstance(y, ast.Assign) and len(y.targets) == 1 and src(y.targets[0]) == n for t in head for y in [t] + list(walk_no_nested(t)))}
+                    if new:
+                        deps |= new
+                        grew = True
+    idx0 = [i for i, s in enumerate(g.body) if any(isinstance(x, ast.Assign) and src(x.targets[0]) in deps for x in ([s] + list(walk_no_nested(s))))]
     if not idx0 or not idx1:
         raise AnalysisError(f'{AR}: weight computation segment not found')
     seg = g.body[idx0[0]:idx1[0]]
